@@ -26,7 +26,8 @@ ENGINES = [
 
 _RFGEN = (" Generator reach beyond the obvious: start samples up to 2^64-2^40, rates from mHz to multi-GHz, recorder "
           "processes with seeded non-UTC TZ, channel paths containing 'tmp.', a prelude writer of other type/byte order "
-          "in the same process.")
+          "in the same process, a companion channel of coarser subdirectory cadence written alternately by the same "
+          "process, channel directories with 300+ character paths, early readers that poll the whole planned window.")
 
 _RFNOTE = ("decided by seeded sampling of configuration x boundary index x history against an exact big-integer "
            "model; the simulator contributes session restarts, reader-object histories, readdir order and process "
